@@ -151,10 +151,9 @@ def symmetric_extension_hierarchy(
     dim_xy, n_cols = states[0].shape
 
     # The variable `states` is provided as a list of vectors. Transform them
-    # into density matrices.
+    # into density matrices (in a new list: the caller's list is left untouched).
     if n_cols == 1:
-        for i, state_ket in enumerate(states):
-            states[i] = state_ket @ state_ket.conj().T
+        states = [state_ket @ state_ket.conj().T for state_ket in states]
 
     # Set default dimension if none was provided.
     if dim is None:
